@@ -15,7 +15,7 @@ META = dict(
     id='C19',
     level='proof',
     technique='Coq proof that no observer of the balance/value/finalize model depends on hash-table iteration order (Permutation-invariance) + observation of the binary under perturbed address space, allocator, environment and paths',
-    level_text='PARTIAL. Proved (coq/Properties/Properties_C19.v): every function of the model that iterates over a balance (quantities, is_zero, is_realzero, + and -, sorted_amounts and the postings generated for an elided amount, the balance a transaction is judged on, account balances, expression values) gives the same result for every permutation / insertion order of the hash table; the one place where the model does depend on it is exhibited (two_commodity_top_zero_order_dependent). Observed, not proved: the binary gives byte-identical stdout, stderr and exit status for the same input under address-space randomisation on/off, allocator perturbation, 0-4 KiB of extra environment, other working directories and journal path lengths.',
+    level_text='PARTIAL. Proved (coq/Properties/Properties_C19.v): every function of the model that iterates over a balance (quantities, is_zero, is_realzero, + and -, sorted_amounts and the postings generated for an elided amount, the balance a transaction is judged on, account balances, expression values) gives the same result for every permutation / insertion order of the hash table; the one place where the model used to depend on it (a first posting in a cancelled commodity orienting the implied rate) was repaired in /repo (F65) and is kept as an Example. Observed, not proved: the binary gives byte-identical stdout, stderr and exit status for the same input under address-space randomisation on/off, allocator perturbation, 0-4 KiB of extra environment, other working directories and journal path lengths.',
     level_note='Determinism of the compiled program (uninitialised reads, address-dependent ordering, locale/time dependence) is a fact about the binary: it is sampled by the perturbed runs, never proved. The documented exceptions are removed before comparing: xml `id`/`ref` attributes. Trusted: Coq kernel; the harness.',
     design_ref='DESIGN.md section 7 C19, section 12',
     assumptions=['--now is always given; TZ=UTC, LC_ALL=C; no --download, no python, no pager/colour'],
